@@ -66,7 +66,7 @@ def main():
                             for d in os.listdir(os.path.join(VERIF, "seeded")))
     dirs = [os.path.abspath(d) for d in dirs]
     dirs = [d for d in dirs if os.path.exists(os.path.join(d, "patch.diff"))]
-    with ThreadPoolExecutor(max_workers=8) as ex:
+    with ThreadPoolExecutor(max_workers=int(os.environ.get("AUREL_JOBS", "14"))) as ex:
         results = list(ex.map(lambda d: run_one(d, props, a.tier), dirs))
     index = {}
     for (name, res), d in zip(results, dirs):
